@@ -251,6 +251,89 @@ theorem loop_to_loopN (fuel : Nat) (fmt : List Char) (args : List Arg) (out : Li
               exact Or.inr trivial
           all_goals cases h
 
+theorem loop_out_grows (fuel : Nat) (fmt : List Char) (args : List Arg) (out : List Char) (pc : Int)
+    (out' : List Char) (pc' : Int) (h : loop fuel fmt args out pc = .done out' pc') : out.length ≤ out'.length := by
+  induction fuel generalizing fmt args out pc with
+  | zero =>
+    cases fmt with
+    | nil => simp [loop] at h; rw [h.1]; exact Nat.le_refl _
+    | cons c cs => simp [loop] at h
+  | succ fuel ih =>
+    cases fmt with
+    | nil => simp [loop] at h; rw [h.1]; exact Nat.le_refl _
+    | cons c cs =>
+      simp only [loop] at h
+      split at h
+      · simp at h; rw [h.1]; exact Nat.le_refl _
+      split at h
+      · have := ih cs args _ _ h; simp at this; omega
+      · split at h
+        · have := ih _ _ _ _ h; simp at this; omega
+        all_goals cases h
+
+/-- BELOW THE BOUND the unbounded model is the `int` model: a finished run of
+`loop` whose output has at most INT_MAX characters and on which no directive
+trips the `atoi` / `-width` guard is the run of `loopN` -/
+theorem loop_to_loopN_below (fuel : Nat) (fmt : List Char) (args : List Arg) (out : List Char) (pc : Int)
+    (st : List NStore) (out' : List Char) (pc' : Int) (h0 : pc = out.length)
+    (h : loop fuel fmt args out pc = .done out' pc') (hb : (out'.length : Int) ≤ INT_MAX)
+    (hg : guardFree fuel fmt args = true) :
+    loopN fuel fmt args out pc st = .done out' pc' st := by
+  induction fuel generalizing fmt args out pc with
+  | zero =>
+    cases fmt with
+    | nil => simp [loop] at h; simp [loopN, h]
+    | cons c cs => simp [loop] at h
+  | succ fuel ih =>
+    cases fmt with
+    | nil => simp [loop] at h; simp [loopN, h]
+    | cons c cs =>
+      simp only [loop] at h
+      simp only [guardFree] at hg
+      simp only [loopN]
+      split at h
+      · rename_i hc; simp at h; simp [hc, h]
+      · rename_i hc
+        rw [if_neg hc] at hg ⊢
+        split at h
+        · rename_i hp
+          rw [if_pos hp] at hg ⊢
+          have hgrow := loop_out_grows _ _ _ _ _ _ _ h
+          simp only [List.length_append, List.length_singleton] at hgrow
+          rw [if_neg (by omega)]
+          exact ih cs args _ _ (by simp; omega) h hg
+        · rename_i hp
+          rw [if_neg hp] at hg ⊢
+          simp only [Bool.and_eq_true, Bool.not_eq_true'] at hg
+          split at h
+          · rename_i emit dpc rest args2 hd
+            have hN : directiveN (c :: cs) args = .ok emit dpc rest args2 none := by
+              rcases directiveN_of_directive hd with hN | hN
+              · exact hN
+              · exfalso
+                unfold directiveN at hN
+                rw [if_neg (by simp [hg.1])] at hN
+                rw [directive_eq] at hd
+                cases hpo : parseOpts (c :: cs) args with
+                | none => simp [hpo] at hd
+                | some q =>
+                  obtain ⟨w, p, s, a', ops⟩ := q
+                  simp only [hpo] at hN hd
+                  split at hN
+                  · split at hN <;> cases hN
+                  · rw [directive_eq] at hN
+                    simp only [hpo, hd] at hN
+                    cases hN
+            simp only [hN]
+            obtain ⟨hc', _⟩ := directive_ok hd
+            have hgrow := loop_out_grows _ _ _ _ _ _ _ h
+            simp only [List.length_append] at hgrow
+            rw [if_neg (by omega)]
+            have hg2 := hg.2
+            simp only [hd] at hg2
+            exact ih rest args2 _ _ (by simp; omega) h hg2
+          all_goals cases h
+
 theorem loopN_no_diverge (fuel : Nat) (fmt : List Char) (args : List Arg) (out : List Char) (pc : Int)
     (st : List NStore) (h1 : fmt.length < fuel) : loopN fuel fmt args out pc st ≠ .diverged := by
   induction fuel generalizing fmt args out pc st with
